@@ -603,6 +603,23 @@ pub fn check(case: &Case, _tier: Tier) -> Outcome {
       o.violate("C05/new-manifest-not-recorded", key);
     }
   }
+  // and so did every version manifest the build loaded (whatever became of
+  // the package's files afterwards)
+  for c in &log {
+    if c.cache == "only" {
+      continue;
+    }
+    let Some(rest) = c.spec.strip_prefix(REGISTRY) else { continue };
+    let Some(stem) = rest.strip_suffix("_meta.json") else { continue };
+    let Some((name, version)) = stem.rsplit_once('/') else { continue };
+    let key = format!("{name}@{version}");
+    if !b.served_sha.contains_key(&c.spec) {
+      continue; // no such version: the load was answered "missing"
+    }
+    if !b.locker.manifests.contains_key(&key) && !set_manifest.contains_key(&key) {
+      o.violate("C05/new-manifest-not-recorded/loaded", key);
+    }
+  }
   let _ = (&b.registry_files, HashMap::<u8, u8>::new());
   if !case.tampered.is_empty() {
     o.label("tampered-registry-file");
